@@ -201,12 +201,15 @@ theorem bitsToBytes_whole (l : List Bool) : l.length % 8 = 0 →
     simp only [List.take_succ_cons, List.take_zero, List.drop_succ_cons, List.drop_zero]
     refine ⟨?_, ?_, ?_⟩
     · intro acc
-      simp only [beToNatAux, List.foldl_cons, stepBit_eq]
-      rw [ih1, byteOf_8]
-      trace_state
+      rw [beToNatAux, ih1, byteOf_8]
+      generalize hf : (fun (acc : Nat) (b : Bool) => (acc <<< 1) ||| (if b then 1 else 0)) = f
+      have hf' : ∀ a b, f a b = 2 * a + b.toNat := by
+        intro a b; rw [← hf]; exact stepBit_eq a b
+      simp only [List.foldl_cons, hf']
       congr 1
       omega
-    · simp only [List.length_cons, ih2]; omega
+    · simp only [List.length_cons, ih2]
+      omega
     · rw [unpackBits_cons, byteBits_byteOf, ih3]; rfl
 
 theorem padLen_whole (l : List Bool) :
@@ -263,5 +266,215 @@ theorem packBits_unpackBits (bs : Bytes) : packBits (unpackBits bs) = bs := by
     rw [bitsToBytes_cons]
     simp only [List.take_succ_cons, List.take_zero, List.drop_succ_cons, List.drop_zero]
     rw [hb, ih, UInt8.ofNat_toNat]
+
+/-! ### serialize_gcs / decode_gcs -/
+
+theorem decodeGcsLoop_gcsBits (xs : List Nat) : ∀ (last : Nat) (r : List Bool),
+    (∀ x ∈ xs, last ≤ x) → xs.Pairwise (· ≤ ·) →
+    decodeGcsLoop xs.length last (gcsBits last xs ++ r) = some xs := by
+  induction xs with
+  | nil => intro last r _ _; rfl
+  | cons item rest ih =>
+    intro last r hlast hs
+    have hle : last ≤ item := hlast item (List.mem_cons_self)
+    rw [List.pairwise_cons] at hs
+    rw [gcsBits, List.length_cons, decodeGcsLoop, List.append_assoc, decodeGolomb_encodeGolomb]
+    have hcur : last + (item - last) = item := by omega
+    simp only [Option.bind_eq_bind, Option.bind_some, hcur]
+    rw [ih item r hs.1 hs.2]
+    rfl
+
+theorem serializeGcs_eq {xs : List Nat} {b : Bytes} (h : serializeGcs xs = some b) :
+    ∃ e, encodeVarint xs.length = some e ∧ b = e ++ packBits (gcsBits 0 xs) := by
+  unfold serializeGcs at h
+  cases he : encodeVarint xs.length with
+  | none => rw [he] at h; cases h
+  | some e => rw [he] at h; cases h; exact ⟨e, rfl, rfl⟩
+
+/-- decode_gcs inverts serialize_gcs on non-decreasing lists -/
+theorem decodeGcs_serializeGcs (xs : List Nat) (hs : xs.Pairwise (· ≤ ·)) (b : Bytes)
+    (h : serializeGcs xs = some b) : decodeGcs b = some xs := by
+  obtain ⟨e, he, rfl⟩ := serializeGcs_eq h
+  unfold decodeGcs
+  rw [readVarint_encodeVarint _ _ _ he]
+  simp only [Option.bind_eq_bind, Option.bind_some]
+  rw [unpackBits_packBits]
+  exact decodeGcsLoop_gcsBits xs 0 _ (fun _ _ => Nat.zero_le _) hs
+
+theorem serializeGcs_isSome (xs : List Nat) : (serializeGcs xs).isSome ↔ xs.length < 2 ^ 64 := by
+  unfold serializeGcs
+  rw [Option.isSome_map, encodeVarint_isSome_iff]
+
+/-! ### encode_gcs is the BIP158 construction -/
+
+theorem mapM_some {α β : Type} (g : α → β) (l : List α) :
+    l.mapM (fun a => (some (g a) : Option β)) = some (l.map g) := by
+  induction l with
+  | nil => rfl
+  | cons a l ih => simp [List.mapM_cons, ih]
+
+theorem mapM_option_spec {α β : Type} (g : α → Option β) (l : List α) (out : List β)
+    (h : l.mapM g = some out) : out.length = l.length ∧ ∀ x ∈ l, ∃ y, g x = some y ∧ y ∈ out := by
+  induction l generalizing out with
+  | nil => simp at h; subst h; simp
+  | cons a l ih =>
+    rw [List.mapM_cons] at h
+    cases ha : g a with
+    | none => rw [ha] at h; simp at h
+    | some y =>
+      cases hl : l.mapM g with
+      | none => rw [ha, hl] at h; simp at h
+      | some ys =>
+        rw [ha, hl] at h
+        simp at h
+        subst h
+        obtain ⟨h1, h2⟩ := ih ys hl
+        refine ⟨by simp [h1], ?_⟩
+        intro x hx
+        rcases List.mem_cons.mp hx with rfl | hx
+        · exact ⟨y, ha, List.mem_cons_self⟩
+        · obtain ⟨z, hz1, hz2⟩ := h2 x hx
+          exact ⟨z, hz1, List.mem_cons_of_mem _ hz2⟩
+
+theorem gcsBits_eq_spec (last : Nat) (vs : List Nat) :
+    gcsBits last vs = (deltas last vs).flatMap (fun d => golombEncode d bip158P) := by
+  induction vs generalizing last with
+  | nil => rfl
+  | cons v vs ih =>
+    rw [gcsBits, deltas, List.flatMap_cons, ih, encodeGolomb_eq_spec]
+    rfl
+
+theorem hashToRange_eq_spec (key value : Bytes) (f : Nat) (hk : key.length = 16) :
+    hashToRange key value f = some (((sipHash24 key value).toNat * f) / 2 ^ 64) := by
+  unfold hashToRange
+  rw [siphash_eq_spec key value hk, Option.map_some, Nat.shiftRight_eq_div_pow]
+
+/-- encode_gcs is the BIP158 construction (N = number of items, F = N·M, M = 784931, P = 19) -/
+theorem encodeGcs_eq_spec (key : Bytes) (items : List Bytes) (hk : key.length = 16) :
+    encodeGcs key items = Spec.Filters.gcsFilter (Spec.Filters.sipHash24 key) items := by
+  unfold encodeGcs hashedItems gcsFilter
+  simp only [hashToRange_eq_spec _ _ _ hk]
+  rw [mapM_some]
+  simp only [Option.map_some, Option.bind_eq_bind, Option.bind_some, serializeGcs, sortNat]
+  rw [List.length_mergeSort, List.length_map, gcsBits_eq_spec, packBits_eq_spec]
+  rfl
+
+/-! ### round trips on filters -/
+
+theorem sortNat_pairwise (l : List Nat) : (sortNat l).Pairwise (· ≤ ·) := by
+  have h := List.pairwise_mergeSort (le := fun (a b : Nat) => decide (a ≤ b))
+    (by intro a b c; simp only [decide_eq_true_eq]; omega)
+    (by intro a b; simp only [Bool.or_eq_true, decide_eq_true_eq]; omega) l
+  simpa [sortNat] using h
+
+theorem sortNat_of_pairwise {l : List Nat} (h : l.Pairwise (· ≤ ·)) : sortNat l = l := by
+  unfold sortNat
+  apply List.mergeSort_of_pairwise
+  simpa using h
+
+theorem sortNat_length (l : List Nat) : (sortNat l).length = l.length := List.length_mergeSort l
+
+theorem mem_sortNat {a : Nat} {l : List Nat} : a ∈ sortNat l ↔ a ∈ l :=
+  (List.mergeSort_perm l _).mem_iff
+
+theorem encodeGcs_eq {key : Bytes} {items : List Bytes} {fb : Bytes} (h : encodeGcs key items = some fb) :
+    ∃ raw, items.mapM (fun it => hashToRange key it (items.length * Gen.golombM)) = some raw ∧
+      hashedItems key items = some (sortNat raw) ∧ serializeGcs (sortNat raw) = some fb := by
+  unfold encodeGcs hashedItems at h
+  unfold hashedItems
+  cases hm : items.mapM (fun it => hashToRange key it (items.length * Gen.golombM)) with
+  | none => simp [hm] at h
+  | some raw =>
+    simp only [hm, Option.map_some, Option.bind_eq_bind, Option.bind_some] at h
+    refine ⟨raw, rfl, ?_, h⟩
+    simp only [hm, Option.map_some]
+
+/-- decoding a built filter gives the sorted hashed values -/
+theorem decodeGcs_encodeGcs (key : Bytes) (items : List Bytes) (fb : Bytes)
+    (h : encodeGcs key items = some fb) :
+    ∃ hs, hashedItems key items = some hs ∧ decodeGcs fb = some hs := by
+  obtain ⟨raw, _, h2, h3⟩ := encodeGcs_eq h
+  exact ⟨sortNat raw, h2, decodeGcs_serializeGcs _ (sortNat_pairwise raw) _ h3⟩
+
+/-- more generally for any received filter that is the serialisation of a non-decreasing list -/
+theorem compact_parse_serialize' (key : Bytes) (xs : List Nat) (hs : xs.Pairwise (· ≤ ·)) (fb : Bytes)
+    (h : serializeGcs xs = some fb) :
+    ∃ cf, CompactFilter.parse false key fb = some cf ∧ cf.hashes = xs ∧ cf.f = xs.length * 784931 ∧
+      cf.serialize = some fb := by
+  refine ⟨CompactFilter.init false key xs, ?_, ?_, ?_, ?_⟩
+  · unfold CompactFilter.parse
+    rw [decodeGcs_serializeGcs xs hs fb h, Option.map_some]
+  · simp [CompactFilter.init, sortNat_of_pairwise hs]
+  · simp [CompactFilter.init, sortNat_of_pairwise hs]
+  · simp [CompactFilter.init, CompactFilter.serialize, sortNat_of_pairwise hs, h]
+
+/-- parse then serialize reproduces the filter bytes (so the filter hash and the header chain are those of
+    the received filter) -/
+theorem compact_parse_serialize (key : Bytes) (items : List Bytes) (fb : Bytes)
+    (h : encodeGcs key items = some fb) :
+    ∃ cf, CompactFilter.parse false key fb = some cf ∧ cf.serialize = some fb := by
+  obtain ⟨raw, _, _, h3⟩ := encodeGcs_eq h
+  obtain ⟨cf, h1, _, _, h4⟩ := compact_parse_serialize' key _ (sortNat_pairwise raw) fb h3
+  exact ⟨cf, h1, h4⟩
+
+/-- NO FALSE NEGATIVES (repaired code, dedup = false): every item of the list a filter was built from is
+    reported present -/
+theorem compact_no_false_negatives (key : Bytes) (items : List Bytes) (fb : Bytes)
+    (h : encodeGcs key items = some fb) (x : Bytes) (hx : x ∈ items) :
+    ∃ cf, CompactFilter.parse false key fb = some cf ∧ cf.f = items.length * 784931 ∧
+      cf.contains x = some true := by
+  obtain ⟨raw, h1, _, h3⟩ := encodeGcs_eq h
+  obtain ⟨hlen, hmem⟩ := mapM_option_spec _ _ _ h1
+  have hsort := sortNat_of_pairwise (sortNat_pairwise raw)
+  have hf : (CompactFilter.init false key (sortNat raw)).f = items.length * 784931 := by
+    simp [CompactFilter.init, hsort, sortNat_length, hlen]
+  refine ⟨CompactFilter.init false key (sortNat raw), ?_, hf, ?_⟩
+  · unfold CompactFilter.parse
+    rw [decodeGcs_serializeGcs _ (sortNat_pairwise raw) fb h3, Option.map_some]
+  · obtain ⟨y, hy1, hy2⟩ := hmem x hx
+    unfold CompactFilter.contains
+    rw [hf]
+    have hk : (CompactFilter.init false key (sortNat raw)).key = key := rfl
+    have hh : (CompactFilter.init false key (sortNat raw)).hashes = sortNat raw := by
+      simp [CompactFilter.init, hsort]
+    rw [hk, hh, hy1, Option.map_some]
+    congr 1
+    rw [List.contains_iff_mem, mem_sortNat]
+    exact hy2
+
+/-! ### F18a: the set-based filter of the code before the fix -/
+
+/-- F18a (the behaviour before the fix, dedup = true): with two items hashing to the same value the
+    set-based filter uses F = 1·M instead of 2·M, reports both inserted items absent and re-serialises to
+    different bytes.  key = 16 zero bytes, items = [02 82 03], [02 b4 05]: both map to 728580 under
+    F = 2·784931; filter bytes 02 98 f0 20 00 00 00. -/
+theorem F18a_witness :
+    let key : Bytes := List.replicate 16 0
+    let a : Bytes := [0x02, 0x82, 0x03]
+    let b : Bytes := [0x02, 0xb4, 0x05]
+    encodeGcs key [a, b] = some [0x02, 0x98, 0xf0, 0x20, 0x00, 0x00, 0x00] ∧
+    (∃ cf, CompactFilter.parse true key [0x02, 0x98, 0xf0, 0x20, 0x00, 0x00, 0x00] = some cf ∧
+       cf.contains a = some false ∧ cf.contains b = some false ∧
+       cf.serialize ≠ some [0x02, 0x98, 0xf0, 0x20, 0x00, 0x00, 0x00]) := by
+  intro key a b
+  have hsort : sortNat [728580, 728580] = [728580, 728580] :=
+    sortNat_of_pairwise (by decide)
+  have hmap : [a, b].mapM (fun it => hashToRange key it ([a, b].length * Gen.golombM))
+      = some [728580, 728580] := by decide +kernel
+  have hser : serializeGcs [728580, 728580] = some [0x02, 0x98, 0xf0, 0x20, 0x00, 0x00, 0x00] := by
+    decide +kernel
+  have hdec : decodeGcs [0x02, 0x98, 0xf0, 0x20, 0x00, 0x00, 0x00] = some [728580, 728580] := by
+    decide +kernel
+  refine ⟨?_, CompactFilter.init true key [728580, 728580], ?_, ?_, ?_, ?_⟩
+  · unfold encodeGcs hashedItems
+    simp only [hmap, Option.map_some, hsort, Option.bind_eq_bind, Option.bind_some, hser]
+  · unfold CompactFilter.parse
+    rw [hdec, Option.map_some]
+  all_goals
+    have hinit : CompactFilter.init true key [728580, 728580]
+        = { key := key, hashes := [728580], f := 784931 } := by
+      simp only [CompactFilter.init, hsort]; decide
+    rw [hinit]
+    decide +kernel
 
 end Buidl.Filters
